@@ -225,3 +225,38 @@ Definition typing_run (r : tyreq) : list Z :=
   | None => [0]
   | Some t => 1 :: t_base t :: kind_index (tr_kinds r) (t_kind t) 0 :: t_dim t
   end.
+
+(* ------------------------------------------------------------------ complex storage (C20) *)
+(* the norm of each operand is supplied by the harness (libm hypot is an oracle) *)
+Inductive creq :=
+| CNew (U : list cexpr) (d : list Z) (coef : cexpr) (const : option cexpr) (re im nrm : Z)
+| CGet (U : list cexpr) (d : list Z) (coef : cexpr) (const : option cexpr) (re im nrm : Z)
+| CBin (ac : bool) (o : binop) (U : list cexpr) (d : list Z) (are aim bre bim bnrm : Z)
+| CEqual (ac : bool) (U : list cexpr) (d : list Z) (are aim bre bim bnrm : Z).
+
+Section Cx.
+Variables prec emax ew : Z.
+Context (Hprec : Prec_gt_0 prec) (Hmax : Prec_lt_emax prec emax).
+Notation fl := (binary_float prec emax).
+Notation ev := (eval_f prec emax Hprec Hmax).
+Notation ofb := (of_bits prec emax Hprec Hmax ew).
+Notation tob := (to_bits prec emax ew).
+Definition c_run (lib : flib) (r : creq) : list Z :=
+  match r with
+  | CNew U d coef const re im nrm =>
+      let S := StC prec emax Hprec Hmax (fun _ _ => ofb nrm) lib in
+      let z := q_new S (map ev U) d (ev coef) (cons_add prec emax Hprec Hmax const) (ofb re, ofb im) in [tob (fst z); tob (snd z)]
+  | CGet U d coef const re im nrm =>
+      let S := StC prec emax Hprec Hmax (fun _ _ => ofb nrm) lib in
+      let z := q_get S (map ev U) d (ev coef) (cons_sub prec emax Hprec Hmax const) (ofb re, ofb im) in [tob (fst z); tob (snd z)]
+  | CBin ac o U d are aim bre bim bnrm =>
+      let S := StC prec emax Hprec Hmax (fun _ _ => ofb bnrm) lib in
+      let f := match o with BAdd => cadd prec emax Hprec Hmax | BSub => csub_ prec emax Hprec Hmax | _ => cmul_ prec emax Hprec Hmax end in
+      let z := q_bin S f ac (map ev U) (map ev U) d (ofb are, ofb aim) (ofb bre, ofb bim) in [tob (fst z); tob (snd z)]
+  | CEqual ac U d are aim bre bim bnrm =>
+      let S := StC prec emax Hprec Hmax (fun _ _ => ofb bnrm) lib in
+      [zb (q_bin S (ceqb prec emax) ac (map ev U) (map ev U) d (ofb are, ofb aim) (ofb bre, ofb bim))]
+  end.
+End Cx.
+Definition crun32 := c_run 24 128 8 p32 m32.
+Definition crun64 := c_run 53 1024 11 p64 m64.
